@@ -1,7 +1,8 @@
 #!/usr/bin/env python3
 """Operator-level mutation analysis of /repo/src against the registered quick checks.
 
-usage: tools/mutate.py <slots> <count> [seed]   (runs <count> mutants spread over <slots> workers)
+usage: tools/mutate.py <slots> <count> [seed] [skip]   (runs <count> mutants, after skipping <skip> of the
+shuffled candidate list, spread over <slots> workers)
 
 For every sampled mutant (one token-level change on one line of non-test source):
   1. apply it in a scratch worktree of /repo HEAD (/tmp/waxmut-<slot>), `cargo build --offline`
@@ -126,9 +127,10 @@ def main():
     slots = int(sys.argv[1])
     count = int(sys.argv[2])
     seed = int(sys.argv[3]) if len(sys.argv) > 3 else 1
+    skip = int(sys.argv[4]) if len(sys.argv) > 4 else 0
     cands = candidates()
     random.Random(seed).shuffle(cands)
-    jobs = cands[:count]
+    jobs = cands[skip:skip + count]
     print(f"{len(cands)} candidate mutations, running {len(jobs)} on {slots} slots", flush=True)
     lock = threading.Lock()
     results = []
